@@ -80,6 +80,13 @@ def s_case(draw, max_len=5, max_steps=40):
     case['load'] = load
     case['init'] = G.s_init(draw, mdl)
     case['motor']['pwm0'] = draw(st.sampled_from([1, 1, 1, 0.5, -1, 0, -0.5, 0.0]))
+    if draw(st.integers(0, 5)) == 0 and case['motor']['pwm0']:
+        # a constant load a hair above (or below) stall, from rest: the net torque and the back-driven speed are tiny
+        # but their signs are exact, and the sign is what the documented conditions read
+        hair = draw(st.sampled_from([0.0, 1e-15, 2e-15, 1e-14, 1e-13, 1e-12, 1e-10, -1e-15, -1e-13]))
+        load.update(c0=mdl.stall_out * case['motor']['pwm0'] * (1 + hair), cw=0.0, csin=0.0, ct=0.0)
+        case['init'] = {'pos': case['init']['pos'], 'speed': [0.0, case['init']['speed'][1]]}
+        case['motor'].update(i0=None, imax=None)
     h = draw(st.sampled_from(['run', 'run', 'run+continue', 'reset+rerun']))
     run1 = G.s_run(draw, mdl, max_steps=max_steps)
     if h == 'run':
